@@ -7,6 +7,7 @@ import (
 	"fmt"
 	"strconv"
 	"strings"
+	"time"
 
 	"github.com/blinklabs-io/gouroboros/cbor"
 	"github.com/blinklabs-io/gouroboros/ledger"
@@ -14,7 +15,7 @@ import (
 )
 
 func init() {
-	register(&Prop{ID: "C36", Gen: genC36, Run: runC36})
+	register(&Prop{ID: "C36", Gen: genC36, Run: crashSafe("C36", runC36), Timeout: 30 * time.Second})
 }
 
 var c36Variants = []string{"ok", "pvlong", "neg", "str", "pvnotarr", "pvempty", "outer1", "outer3", "outermap", "bodynotarr", "garbage"}
